@@ -59,6 +59,22 @@ def gen(rng):
                           G.fmt_info(TG.pct(loc_ + '.trashinfo') if loc_.startswith('/') and tdir_.startswith(home) else 'docs/' + TG.pct(nm_ + '.trashinfo'),
                                      rng.choice(['2001-01-01T00:00:00', '2001-01-01T00:00:00', TG.iso(TG.rand_date(rng))])), 0o600])
             kinds.append('nopayload-named-X.trashinfo')
+    spare = [l[0] for l in locs if l[0] not in used_dirs and not any(l[0] == m_[0] for m_ in made)
+             and not any(isinstance(s_[1], str) and (s_[1] == l[0] or s_[1].startswith(l[0] + '/')) for s_ in extra + steps)]
+    if spare and rng.random() < 0.06:
+        # a whole trash directory is broken: its info (or files) is a regular file - the other trash directories are still read
+        t_ = rng.choice(spare)
+        extra.append(['d', t_, 0o700])
+        which = rng.choice(['info', 'info', 'files'])
+        extra.append(['f', t_ + '/' + which, 'not a directory', 0o600])
+        extra.append(['d', t_ + '/' + ('files' if which == 'info' else 'info'), 0o700])
+        kinds.append(which + '-is-a-regular-file')
+    if rng.random() < 0.006:
+        # a payload WITHOUT info that is a directory nested deeper than the interpreter's recursion limit (an unpacked archive
+        # bomb, a runaway script): whatever the purge does about it, the well-formed entries are purged all the same
+        t_ = rng.choice(used_dirs)
+        extra.append(['d', t_ + '/files/orphan_abyss' + '/d' * 1100, 0o755])
+        kinds.append('orphan-nested-deeper-than-the-recursion-limit')
     nofile = None
     if rng.random() < 0.04:
         # a small descriptor limit (ulimit -n) and more odd neighbours of one kind than that: a reader that leaks one
